@@ -104,12 +104,14 @@ _http_lock = threading.Lock()
 
 
 def ensure_http_patched():
-    """Scratch copy of the pinned http-1.5.0 with hash_elem_using returning a constant under cfg(kani).
-    Regenerated whenever absent; fails closed if the hunk does not apply."""
+    """Scratch copy of the pinned http-1.5.0 with src/header/map.rs replaced by the Vec-backed model
+    /verif/shims/http-model/map.rs (DESIGN §3.4).  Regenerated whenever absent or the model changed."""
     with _http_lock:
         dst = os.path.join(VERIF, ".cache/http-patched")
+        model = os.path.join(VERIF, "shims/http-model/map.rs")
         stamp = os.path.join(dst, ".verif-patched")
-        if os.path.exists(stamp):
+        sig = str(os.path.getmtime(model)) + ":" + str(os.path.getsize(model))
+        if os.path.exists(stamp) and open(stamp).read().strip() == sig:
             return dst
         srcs = glob.glob(os.path.expanduser("~/.cargo/registry/src/*/http-1.5.0"))
         if not srcs:
@@ -118,19 +120,16 @@ def ensure_http_patched():
         shutil.rmtree(tmp, ignore_errors=True)
         shutil.copytree(srcs[0], tmp)
         mp = os.path.join(tmp, "src/header/map.rs")
-        text = open(mp).read()
-        needle = "fn hash_elem_using<K>(danger: &Danger, k: &K) -> HashValue\nwhere\n    K: Hash + ?Sized,\n{\n"
-        if text.count(needle) != 1:
+        if not os.path.exists(mp):
             shutil.rmtree(tmp, ignore_errors=True)
-            raise Inconclusive("http patch hunk (hash_elem_using) does not apply")
-        text = text.replace(needle, needle + "    if cfg!(kani) {\n        let _ = (danger, k);\n        return HashValue(0);\n    }\n", 1)
-        open(mp, "w").write(text)
+            raise Inconclusive("http source layout changed: src/header/map.rs missing")
+        shutil.copyfile(model, mp)
         for junk in (".cargo-ok", ".cargo_vcs_info.json", "Cargo.toml.orig"):
             try:
                 os.remove(os.path.join(tmp, junk))
             except OSError:
                 pass
-        open(os.path.join(tmp, ".verif-patched"), "w").write("constant hash under cfg(kani)\n")
+        open(os.path.join(tmp, ".verif-patched"), "w").write(sig + "\n")
         shutil.rmtree(dst, ignore_errors=True)
         os.makedirs(os.path.dirname(dst), exist_ok=True)
         os.rename(tmp, dst)
@@ -199,8 +198,13 @@ def _run(cmd, timeout, mem_gb, out_path=None):
 
 
 DEFAULT_UNWINDSET = [
-    ("drop_glue::<[http::header::map::Bucket<", 3),      # header maps in harnesses hold <= 2 entries
-    ("drop_glue::<[http::header::map::ExtraValue<", 2),  # <= 1 extra value (repeated name)
+    # header maps in harnesses hold <= 3 names and <= 2 extra values per name (HeaderMap model, shims/http-model)
+    ("function http::HeaderMap::find_name", 5),
+    ("function http::HeaderMap::len", 5),
+    ("function http::HeaderMap::<", 5),
+    ("drop_glue::<[http::header::map::Group<", 5),
+    ("drop_glue::<[http::HeaderValue]>", 4),
+    ("drop_glue::<[(std::option::Option<http::HeaderName>, http::HeaderValue)]>", 6),
 ]
 
 
